@@ -46,6 +46,32 @@ PROPS = {
     ),
 }
 
+PROPS["C01"] = dict(
+    units=["bulkhead"],
+    title="Bulkhead never exceeds max_concurrent_calls",
+    level_text="Deductive proof (Verus) on the real bodies of Bulkhead::{new,call,poll_ready} and the field-wise expansion of its derived Clone: the semaphore every clone shares is created with exactly "
+               "max_concurrent_calls permits; in every execution of call() the inner call is made, and the inner future is awaited, only while this task holds a permit of that semaphore "
+               "(preconditions of the inner-service shim, checked at every call site); at most one permit per call. Holds for all configurations, inner outcomes and cancellation points of this body.",
+    level_note="Assumes tokio's Semaphore contract (outstanding permits <= n across Arc clones; a cancelled acquire leaks nothing; a permit is released when dropped, also on unwind) and Rust drop semantics; "
+               "one task in isolation, interference only through the semaphore.",
+    technique="contract-based deductive verification (Verus): effect-trace contract on the extracted call body",
+    design_ref="§6 C01",
+    assumptions=["tokio Semaphore contract", "RAII drop on cancellation and unwind", "derive(Clone) clones field-wise"],
+    trusted=COMMON_TRUST, excluded=["anything inside tokio (fairness, wake-ups)"],
+)
+PROPS["C07"] = dict(
+    units=["bulkhead"],
+    title="Bulkhead never loses capacity, rejects only by timeout",
+    level_text="Deductive proof (Verus) on the real call body: a rejected call never reaches the inner service; the timeout error is returned iff the timer fired, and the duration handed to the timer is exactly "
+               "max_wait_duration; BulkheadFull only when the semaphore reports closed (nothing in the crate closes it: syntactic frame check); nothing but the semaphore gates admission (no sleep, no second acquire); "
+               "the permit is held until the inner future completed and no duty is left unguarded at any cancellation point.",
+    level_note="'exactly max_wait after arrival' and 'admitted at once when free' are decided relative to tokio's timer and semaphore fairness (assumed); release on drop/unwind is RAII (assumed).",
+    technique="contract-based deductive verification (Verus): effect-trace contract with obligation ledger",
+    design_ref="§6 C07",
+    assumptions=["tokio timeout fires at its deadline", "tokio Semaphore is fair and leak-free", "RAII release of the permit on implicit drop"],
+    trusted=COMMON_TRUST, excluded=["timer accuracy", "semaphore fairness"],
+)
+
 NOT_APPLICABLE = {
     "C12": "not built: hedge's body is a tokio::select! loop over spawned tasks; needs the select!/spawn rewrite R17 (DESIGN §7); nothing weaker is claimed in its place",
 }
